@@ -312,7 +312,7 @@ type KExpect struct {
 func spath(p int) string { return fmt.Sprintf("/storage/p%d", p) }
 func ppath(q int) string { return fmt.Sprintf("/public/q%d", q) }
 func kpath(s int) string { return fmt.Sprintf("/storage/k%d", s) }
-func addr(a int) string   { return fmt.Sprintf("0x%016x", a) }
+func addr(a int) string  { return fmt.Sprintf("0x%016x", a) }
 func tf(b bool) string {
 	if b {
 		return "t"
@@ -332,6 +332,18 @@ func (m *CapModel) idsFor(a int, acct bool, p int) []uint64 {
 	var ids []uint64
 	for id, c := range m.St[a].Ctrls {
 		if c.Acct == acct && (acct || c.Target == p) {
+			ids = append(ids, id)
+		}
+	}
+	sort.Slice(ids, func(i, j int) bool { return ids[i] < ids[j] })
+	return ids
+}
+
+// idsForAll lists the live storage controllers of an account.
+func (m *CapModel) idsForAll(a int) []uint64 {
+	var ids []uint64
+	for id, c := range m.St[a].Ctrls {
+		if !c.Acct {
 			ids = append(ids, id)
 		}
 	}
@@ -1185,20 +1197,87 @@ func GenCapHistory(c Chooser, o CapGenOptions) *CapHistory {
 		emit(KTx{Actions: []KAction{{Op: "load", A: a, P: p}, {Op: "save", A: a, P: p, Kind: kind}}})
 	}
 	total := 20 + c.Intn("actions", o.MaxActions-19)
+	retargeted, deletedAfter := false, false
 	for n := 0; n < total; {
 		tx := KTx{}
 		w := m.clone()
 		cnt := 1 + c.Intn("txlen", 5)
 		for i := 0; i < cnt; i++ {
-			a, ok := m.genAction(c, w)
+			var a KAction
+			ok := false
+			// steer towards the ingredients of a non-trivial history: a retarget that
+			// moves a controller, later a delete
+			if (!retargeted || !deletedAfter) && Chance(c, "goal", 1, 3) {
+				type cand struct {
+					a  int
+					id uint64
+				}
+				var live []cand
+				for _, x := range m.Accts {
+					for _, id := range w.idsForAll(x) {
+						live = append(live, cand{x, id})
+					}
+				}
+				if len(live) > 0 {
+					x := live[c.Intn("goalctl", len(live))]
+					ctl := w.St[x.a].Ctrls[x.id]
+					if !retargeted {
+						a, ok = KAction{Op: "retarget", A: x.a, ID: x.id, P: (ctl.Target + 1 + c.Intn("goalpath", NPaths-1)) % NPaths}, true
+					} else {
+						a, ok = KAction{Op: "delete", A: x.a, ID: x.id}, true
+					}
+				}
+			}
+			if !ok {
+				a, ok = m.genAction(c, w)
+			}
 			n++
 			if !ok {
 				continue
 			}
+			// observations through the same account reference before and after the
+			// calls that change what they report
+			var obs []KAction
+			switch a.Op {
+			case "publish", "unpublish":
+				bt := BT(4)
+				if p := w.St[a.A].Published[a.Q]; p != nil {
+					bt = p.BT
+				} else if a.Op == "publish" && a.Slot < len(w.St[a.A].Kept) {
+					bt = w.St[a.A].Kept[a.Slot].BT
+				}
+				obs = []KAction{{Op: "exists", A: a.A, B: a.A, Q: a.Q}, {Op: "pborrow", A: a.A, B: a.A, Q: a.Q, BT: bt}}
+			case "issue", "delete":
+				if a.Acct {
+					obs = []KAction{{Op: "getControllers", A: a.A, Acct: true}}
+				} else if a.Op == "issue" {
+					obs = []KAction{{Op: "getControllers", A: a.A, P: a.P}}
+				} else if ctl := w.St[a.A].Ctrls[a.ID]; ctl != nil && !ctl.Acct {
+					obs = []KAction{{Op: "getControllers", A: a.A, P: ctl.Target}}
+				}
+			case "retarget":
+				if ctl := w.St[a.A].Ctrls[a.ID]; ctl != nil && !ctl.Acct {
+					obs = []KAction{{Op: "forEachController", A: a.A, P: ctl.Target}, {Op: "getControllers", A: a.A, P: a.P}}
+				}
+			}
+			failed := false
+			if len(obs) > 0 && Chance(c, "pre-observe", 1, 2) {
+				for _, o := range obs {
+					tx.Actions = append(tx.Actions, o)
+					w.Apply(KTx{Actions: []KAction{o}})
+				}
+			}
 			tx.Actions = append(tx.Actions, a)
 			// steer the following choices by the state the transaction would reach
 			if e := w.Apply(KTx{Actions: []KAction{a}}); e.Fails {
+				failed = true
+			}
+			if failed {
 				break
+			}
+			for _, o := range obs {
+				tx.Actions = append(tx.Actions, o)
+				w.Apply(KTx{Actions: []KAction{o}})
 			}
 		}
 		if len(tx.Actions) == 0 {
@@ -1206,6 +1285,16 @@ func GenCapHistory(c Chooser, o CapGenOptions) *CapHistory {
 		}
 		tx.Abort = Chance(c, "abort", 1, 12)
 		emit(tx)
+		if last := h.Steps[len(h.Steps)-1]; !last.Expect.Fails {
+			for _, a := range tx.Actions {
+				if a.Op == "delete" && retargeted {
+					deletedAfter = true
+				}
+			}
+			if last.Expect.Flags["retarget-moved"] {
+				retargeted = true
+			}
+		}
 	}
 	return h
 }
